@@ -135,7 +135,9 @@ def prev_blocks_global(function: "Function", block: "BasicBlock") -> List["Basic
         return []
     if block.is_sub_return_point:
         # if the block is the return point of the subroutine, return all retsub blocks of the subroutine
-        return block.callsub_block.called_subroutine.retsub_blocks
+        # The return point can also be the target of a jump: `bz label; callsub sub; label:`
+        jump_predecessors = [bi for bi in block.prev if not bi.is_callsub_block]
+        return block.callsub_block.called_subroutine.retsub_blocks + jump_predecessors
     # if its a normal block return previous blocks in the CFG.
     return block.prev
 
